@@ -79,11 +79,23 @@ theorem coMoment_src (x y : List α) (h : x.length = y.length) :
   rw [map_range_idx₂ (fun a b => (a - Cv.Src.C08Loops.mean x) * (b - Cv.Src.C08Loops.mean y)) x y h]
   rfl
 
+/-- The same sum written over the zipped elements (`x.iter().zip(y).map(|(xi, yi)| ..)`): the model's `coMoment` directly. -/
+theorem coMoment_src_zip (x y : List α) :
+    Cv.iterSum (List.map (fun (p : α × α) => (p.1 - Cv.Src.C08Loops.mean x) * (p.2 - Cv.Src.C08Loops.mean y)) (List.zip x y))
+      = Cv.coMoment x y := by
+  unfold Cv.coMoment
+  rw [zipWith_map_fun (fun a b => (a - Cv.Src.C08Loops.mean x) * (b - Cv.Src.C08Loops.mean y)) x y]
+  rfl
+
 theorem covariance_eq (x y : List α) : Cv.Src.C08Loops.covariance x y = Cv.covariance x y := by
   unfold Cv.Src.C08Loops.covariance Cv.covariance
   by_cases h : x.length = y.length
   · simp only [h, if_true]
-    rw [← h, coMoment_src x y h]
+    -- shape-tolerant: the index map `(0..n).map(|i| ..)` or the `zip` map
+    first
+      | (rw [← h, coMoment_src x y h])
+      | (rw [coMoment_src_zip x y])
+      | (rw [← h, coMoment_src_zip x y])
   · simp only [h, if_false]
 
 theorem sampleCovariance_eq (x y : List α) :
@@ -91,12 +103,22 @@ theorem sampleCovariance_eq (x y : List α) :
   unfold Cv.Src.C08Loops.sampleCovariance Cv.sampleCovariance
   by_cases h : x.length = y.length
   · simp only [h, if_true]
-    rw [← h, coMoment_src x y h]
-    by_cases h0 : x.length = 0
-    · have h' : ¬ 1 ≤ x.length := by omega
-      rw [if_neg h', if_pos h0]
-    · have h' : 1 ≤ x.length := by omega
-      rw [if_pos h', if_neg h0]
+    first
+      | rw [← h, coMoment_src x y h]
+      | rw [coMoment_src_zip x y]
+      | rw [← h, coMoment_src_zip x y]
+    first
+      | (by_cases h0 : x.length = 0
+         · have h' : ¬ 1 ≤ x.length := by omega
+           rw [if_neg h', if_pos h0]
+         · have h' : 1 ≤ x.length := by omega
+           rw [if_pos h', if_neg h0])
+      | (rw [← h]
+         by_cases h0 : x.length = 0
+         · have h' : ¬ 1 ≤ x.length := by omega
+           rw [if_neg h', if_pos h0]
+         · have h' : 1 ≤ x.length := by omega
+           rw [if_pos h', if_neg h0])
   · simp only [h, if_false]
 
 /-- `sample_covariance_onepass`: the index loop with the shifts `x[0]`, `y[0]` read inside the body. -/
@@ -121,9 +143,13 @@ theorem sampleCovarianceOnepass_eq (x y : List α) :
         have ea : (a :: xs)[0]! = a := by simp
         have eb : (b :: ys)[0]! = b := by simp
         rw [ea, eb] at key
-        rw [← key]
-        simp only [ea, eb]
-        rfl
+        -- shape-tolerant: the index loop (bridged to the `zip` fold by `foldl_range_idx₂`) or the `zip` loop itself
+        first
+          | (rw [← key]
+             simp only [ea, eb]
+             rfl)
+          | (simp only [ea, eb]
+             rfl)
   · simp only [h, if_false]
 
 /-- `sample_covariance_online`: the `zip` loop with the four accumulators `(meanx, meany, c, n)`. -/
